@@ -354,6 +354,20 @@ func Run(r *ev.Run) {
 		}
 		checkPkgMessage(r, dns.Message{QR: 1, Answer: []dns.RR{{Name: "o.example", Type: 65, Class: 1, TTL: 1, Data: dns.HTTPS{Priority: 1, Target: n}}}}, "https-target:"+tag, true)
 	}
+	// two questions in one message, every ordered pair of the name pool (state must not leak from one question to the next)
+	for _, n1 := range names {
+		for _, n2 := range names {
+			checkPkgMessage(r, dns.Message{Question: []dns.Question{{Name: n1, Type: 1, Class: 1}, {Name: n2, Type: 28, Class: 1}}}, "two-questions", true)
+		}
+	}
+	for _, n1 := range []string{"example.com", "a"} {
+		for _, n2 := range []string{".", ""} {
+			m := dns.Message{Question: []dns.Question{{Name: n1, Type: 1, Class: 1}, {Name: n2, Type: 2, Class: 1}}}
+			if back, err := dns.DecodeMessage(m.Bytes()); err != nil || len(back.Question) != 2 || back.Question[0].Name != n1 || back.Question[1].Name != "" || back.Question[1].Type != 2 {
+				r.Violation("roundtrip-differs:two-questions:root-second", fmt.Sprintf("questions [%q, %q] decode back as %+v (%v)", n1, n2, back, err), fmt.Sprintf("%x", m.Bytes()))
+			}
+		}
+	}
 	// IPv4-mapped IPv6 addresses are ordinary AAAA / ipv6hint content (16 bytes on the wire)
 	checkPkgMessage(r, dns.Message{QR: 1, Answer: []dns.RR{{Name: "m.example", Type: 28, Class: 1, TTL: 1, Data: ip6mapped}}}, "aaaa-v4-mapped", true)
 	checkPkgMessage(r, dns.Message{QR: 1, Answer: []dns.RR{{Name: "m.example", Type: 65, Class: 1, TTL: 1, Data: dns.HTTPS{Priority: 1, IPv6Hint: []net.IP{ip6mapped, ip6a}}}}}, "ipv6hint-v4-mapped", true)
@@ -512,7 +526,7 @@ func Run(r *ev.Run) {
 	}
 	// hand-compressed forms other encoders may produce: a pointer whose target is itself a pointer (chains of 1..4 hops),
 	// pointers into the middle of a name, pointers from RDATA names to owner names and to RDATA names
-	for hops := 1; hops <= 4; hops++ {
+	for _, hops := range []int{1, 2, 3, 4, 9, 10, 11, 12, 20, 40} { // (x/net gives up after 10 jumps per name: it is consulted up to 9)
 		for _, tail := range []string{"", "example.com"} {
 			var w []byte
 			w = append(w, 0, 9, 0x81, 0x80, 0, 1, 0, byte(hops+1), 0, 0, 0, 0)
@@ -546,12 +560,12 @@ func Run(r *ev.Run) {
 				ev.ToolError("c13 pointer-chain generator is wrong: %v\n%s\n%s", err, want.Canon(), fmt.Sprintf("%x", w))
 			}
 			var xm dnsmessage.Message
-			if err := xm.Unpack(w); err != nil {
+			if err := xm.Unpack(w); err != nil && hops <= 9 {
 				ev.ToolError("dnsmessage rejects the pointer-chain packet: %v", err)
 			}
 			got, err := dns.DecodeMessage(w)
 			if err != nil {
-				r.Violation("decode-rejects-valid:pointer-to-pointer", fmt.Sprintf("DecodeMessage rejects a packet whose owner names are pointers to pointers (%d hops): %v", hops, err), replay)
+				r.Violation("decode-rejects-valid:pointer-to-pointer", fmt.Sprintf("DecodeMessage rejects a packet whose owner names are pointers to pointers (up to %d jumps for one name; RFC 1035 sets no limit, each jump goes strictly backwards): %v", hops, err), replay)
 			} else if g, err := fromPkg(got); err != nil || g.Canon() != want.Canon() {
 				r.Violation("decode-differs:pointer-to-pointer", fmt.Sprintf("err=%v\n got  %s\n want %s", err, g.Canon(), want.Canon()), replay)
 			}
@@ -632,6 +646,22 @@ func Run(r *ev.Run) {
 			{{Key: 65280, Value: nil}},
 			{{Key: 0, Value: []byte{0, 1}}, {Key: 9, Value: []byte{1}}, {Key: 65535, Value: []byte{2}}},
 		}
+		// alias-mode (priority 0) records that nevertheless carry parameters: a wire codec keeps them (ignoring them is the
+		// RESOLVER's business, RFC 9460 §2.4.2), for SVCB and for HTTPS
+		for _, typ := range []uint16{64, 65} {
+			ps := []dnsref.Param{dnsref.ParamALPN("h3"), dnsref.ParamPort(8443)}
+			m := &dnsref.Msg{ID: 3, Flags: 0x8180, Q: []dnsref.Question{{Name: "al.example", Type: typ, Class: 1}}}
+			m.Sec[0] = []dnsref.RR{{Name: "al.example", Type: typ, Class: 1, TTL: 60, Fields: dnsref.SVCB(0, "target.example", ps)}}
+			checkRefMessage(r, m, fmt.Sprintf("alias-mode-with-params:type%d", typ))
+			// ... and a truncated parameter block in such a record is as malformed as in any other
+			wire := m.Encode(false)
+			cut := append([]byte{}, wire[:len(wire)-1]...)
+			binaryPutU16(cut, len(cut)-rdlenBack(m, wire), -1)
+			if _, err := dns.DecodeMessage(cut); err == nil {
+				r.Violation(fmt.Sprintf("decode-accepts-truncated:alias-mode-params:type%d", typ), "an alias-mode record whose last parameter is cut short (RDLENGTH adjusted) is accepted", fmt.Sprintf("%x", cut))
+			}
+		}
+		checkPkgMessage(r, dns.Message{QR: 1, Answer: []dns.RR{{Name: "al.example", Type: 65, Class: 1, TTL: 1, Data: dns.HTTPS{Priority: 0, Target: "target.example", ALPN: []string{"h3"}, Port: 8443}}}}, "https-alias-mode-with-params", true)
 		for fi, fp := range foreign {
 			for _, withRep := range []bool{false, true} {
 				all := slices.Clone(fp)
@@ -773,6 +803,28 @@ func Run(r *ev.Run) {
 }
 
 // lenName returns a name whose presentation form has exactly n bytes (labels <= 63).
+// rdlenBack returns the distance from the end of wire to the RDLENGTH field of the last record (which is the only record).
+func rdlenBack(m *dnsref.Msg, wire []byte) int {
+	rd := 0
+	for _, f := range m.Sec[0][0].Fields {
+		rd += len(f.Raw)
+		if f.IsName {
+			rd += len(f.Name) + 2
+			if f.Name == "" {
+				rd--
+			}
+		}
+	}
+	return rd + 2
+}
+
+// binaryPutU16 adds delta to the big-endian 16-bit value at off.
+func binaryPutU16(b []byte, off int, delta int) {
+	v := int(b[off])<<8 | int(b[off+1])
+	v += delta
+	b[off], b[off+1] = byte(v>>8), byte(v)
+}
+
 func keysOfParams(ps []dnsref.Param) []uint16 {
 	var out []uint16
 	for _, p := range ps {
